@@ -574,9 +574,9 @@ cdef class BDD:
         elif op in ('diff', '-'):
             r = sy.sylvan_diff(u.node, v.node)
         elif op in (r'\A', 'forall'):
-            r = sy.sylvan_forall(u.node, v.node)
+            r = sy.sylvan_forall(v.node, u.node)
         elif op in (r'\E', 'exists'):
-            r = sy.sylvan_exists(u.node, v.node)
+            r = sy.sylvan_exists(v.node, u.node)
         elif op == 'ite':
             r = sy.sylvan_ite(u.node, v.node, w.node)
         else:
